@@ -25,4 +25,13 @@ case "${1:-}" in
 esac
 id=${1:?property id}; tier=${2:-${VERIF_TIER:-quick}}
 if needs_build; then build "$id"; fi
-exec "$BIN" -property "$id" -tier "$tier" -repo "${VERIF_REPO:-/repo}" -verif "$(pwd)"
+log=$(mktemp)
+"$BIN" -property "$id" -tier "$tier" -repo "${VERIF_REPO:-/repo}" -verif "$(pwd)" 2>&1 | tee "$log"
+rc=${PIPESTATUS[0]}
+if [ "$rc" -ne 0 ] && ! grep -q '^VIOLATION' "$log"; then
+  # the checker died (fatal runtime error, killed): fail closed, in the interface's terms
+  echo "VIOLATION property=$id replay=/verif/check.sh (checker exited with status $rc without a verdict)"
+fi
+rm -f "$log"
+[ "$rc" -eq 0 ] && exit 0
+exit 1
